@@ -263,7 +263,7 @@ PROPS = {
         "trusted_base": TB_COMMON + [
             "Spec/Typing.v `conv` is the definitional equality the theorems speak about; Oracle/Infer.v whnf/convb/nf mirror normalize_weak_head/unify on hole-free terms and are tied to the code by this stream",
         ],
-        "assumptions": ["symmetry and agreement with equality of normal forms are decided on the explored pairs (they need confluence as theorems)"],
+        "assumptions": ["symmetry and agreement with equality of normal forms are theorems about the mirror convb/nf (convb_sym, convb_iff_nf); that unify on hole-free terms is this mirror is what the stream decides"],
     },
     "C12": {
         "level": "translation_validation",
@@ -467,11 +467,13 @@ MANIFEST_TEXT = {
         "text": "Proved: every evaluation step and every value a term evaluates to is definitionally equal to the term (step_in_conv, "
                 "evaluate_in_conv - the group-unfolding step of the evaluator is shown to agree with the normaliser's whole-group "
                 "substitution); a weak-head normal form is never a group; the conversion test never refutes t = t and its success implies "
-                "definitional equality. Coherence on ground programs (whnf literal = run-time literal), success on reducts, symmetry and "
-                "agreement with normal-form equality are decided on generated programs and on all small well-typed pairs.",
+                "definitional equality; the conversion test is symmetric (convb_sym) and, whenever both sides have normal forms, answers true "
+                "exactly when the normal forms with function annotations erased are equal (convb_iff_nf); a normal form is definitionally "
+                "equal to its term (nf_sound). Coherence on ground programs (whnf literal = run-time literal), success on reducts and the "
+                "agreement of unify with this mirror are decided on generated programs and on all small well-typed pairs.",
         "design_ref": "DESIGN.md section 4, C06",
-        "note": "Partial proof: symmetry and normal-form agreement are stated, not proved (confluence).",
-        "technique": "Coq proofs about definitional equality (step_in_conv, convb_refl, whnf_never_let) + differential and metamorphic testing of normalize_weak_head/unify",
+        "note": "Proof about the mirror of normalize_weak_head/unify on hole-free terms; the mirror is tied to the code by correspondence.",
+        "technique": "Coq proofs about definitional equality (step_in_conv, convb_sym, convb_iff_nf, nf_sound, convb_refl, whnf_never_let) + differential and metamorphic testing of normalize_weak_head/unify",
     },
     "C12": {
         "text": "Per-instance validation with a proved conversion test: after each successful unification the recorded solutions are "
